@@ -546,6 +546,16 @@ def handler(case, payload):
     reseed(case)
     try:
         obj = build(case['content'])
+        if VAR.random() < 0.5:
+            # an application that survived a FAILED serialization: an object whose leaf cbor2 cannot encode (a naive datetime
+            # inside redeemer data / a datum) raises in the middle of writing; what is serialized next must be unaffected
+            import datetime
+            for bad in (lambda: TransactionWitnessSet(plutus_data=[{1: [2, datetime.datetime(2020, 1, 1)]}]).to_cbor(),
+                        lambda: Redeemer({b'k' * 40: datetime.datetime(2020, 1, 1)}, ExecutionUnits(1, 2)).to_cbor()):
+                try:
+                    bad()
+                except Exception:
+                    pass
         return {'cbor': obj.to_cbor().hex()}
     except Exception as e:                          # construction / validation / encoding errors are results
         return {'error': err_kind(e), 'msg': str(e)[:300]}
